@@ -60,7 +60,7 @@ func genC02(seed uint64, run int, tier string) *Plan {
 	if r.IntN(2) == 0 {
 		tp.Ops = append(tp.Ops, Op{K: "createIndex", DB: "db", C: "c0", D: jd(bson.D{{Key: pick(r, "a", "b", "s"), Value: int32(1)}}), Unique: true})
 	}
-	n := 1 + r.IntN(8)
+	n := deepen(tier, seed, 1+r.IntN(8))
 	for i := 0; i < n; i++ {
 		var op Op
 		switch r.IntN(10) {
